@@ -349,7 +349,13 @@ class RecordSpecification:
         :param value_column_name: name for value column
         :return: Record map
         """
-        return RecordMap(blocks_in=self, blocks_out=self.value_column_form(), strict=self.strict)
+        return RecordMap(
+            blocks_in=self,
+            blocks_out=self.value_column_form(
+                key_column_name=key_column_name, value_column_name=value_column_name
+            ),
+            strict=self.strict,
+        )
     
     def map_from_keyed_column(self, *, key_column_name: str = "measure", value_column_name: str = "value"):
         """
@@ -360,7 +366,13 @@ class RecordSpecification:
         :param value_column_name: name for value column
         :return: Record map
         """
-        return RecordMap(blocks_in=self.value_column_form(), blocks_out=self, strict=self.strict)
+        return RecordMap(
+            blocks_in=self.value_column_form(
+                key_column_name=key_column_name, value_column_name=value_column_name
+            ),
+            blocks_out=self,
+            strict=self.strict,
+        )
 
 
 class RecordMap(ShiftPipeAction):
